@@ -75,24 +75,38 @@ def fit_pcovr(X, Y, mixing, k, spec, space, solver, prefit=False, regressor_obj=
     with warnings.catch_warnings():
         warnings.simplefilter("ignore")
         try:
+            bufX = bufY = None
             if prefit:
+                # a USED estimator whose caller REUSES its arrays: fitted on other data of the same shape held in the
+                # caller's buffers, which are then refilled in place with the data of this case and passed again
                 Xo = center(np.asarray(X, float)[::-1, ::-1] * 0.6 + 0.25)
                 Yo = np.asarray(Y, float)[::-1] * -0.7
+                bufX = np.ascontiguousarray(Xo, dtype=float).copy()
                 if spec.startswith("pre"):
                     Wo = reference_W(spec, Xo, Yo)
-                    est.fit(Xo, Xo @ Wo, W=Wo if spec == "pre+W" else None)
+                    bufY = np.ascontiguousarray(Xo @ Wo, dtype=float).copy()
+                    est.fit(bufX, bufY, W=Wo if spec == "pre+W" else None)
                 else:
-                    est.fit(Xo, Yo)
+                    bufY = np.ascontiguousarray(Yo, dtype=float).copy()
+                    est.fit(bufX, bufY)
             if int_dtype:
                 X = np.asarray(X).astype(np.int64)  # integer-valued data handed over with an integer dtype
-            if spec == "pre+W":
+                bufX = None
+            if spec.startswith("pre"):
                 W = reference_W(spec, X, Y)
-                est.fit(X, np.asarray(X) @ W, W=W)
-            elif spec == "pre-W":
-                W = reference_W(spec, X, Y)
-                est.fit(X, np.asarray(X) @ W)
+                Yfit = np.asarray(X) @ W
             else:
-                est.fit(X, Y)
+                W, Yfit = None, np.asarray(Y, float)
+            if bufX is not None and bufY is not None and bufY.shape == Yfit.shape:
+                bufX[...] = np.asarray(X, float)
+                bufY[...] = Yfit
+                Xp, Yp = bufX, bufY
+            else:
+                Xp, Yp = X, Yfit
+            if spec == "pre+W":
+                est.fit(Xp, Yp, W=W)
+            else:
+                est.fit(Xp, Yp)
         except Exception as e:
             return est, e
     return est, None
